@@ -186,9 +186,37 @@ def show_obj(o):
 GROUPS = ["scatterer", "theory", "optics", "model"]
 
 
+def rand_composite(rng, pool):
+    """parameters of a sphere collection: keys 'i:attr' for 2-5 members, each attribute with its own sharing
+    pattern (which members use the same prior object), so that a bare shared name ('r') can already be taken
+    by another group of members or by a user-named prior"""
+    m = int(rng.integers(2, 6))
+    ents = []
+    for attr in ["n", "r", "center.0"][:int(rng.integers(1, 4))]:
+        ngroups = int(rng.integers(1, 4))
+        gids = [int(rng.integers(0, ngroups)) for _ in range(m)]
+        prior_of = {}
+        for j in range(m):
+            u = rng.random()
+            if u < 0.15:
+                ents.append(("%d:%s" % (j, attr), ("F", int(rng.integers(1, 9)))))
+                continue
+            g = gids[j]
+            if g not in prior_of:
+                nm = [None, None, None, attr, "r", "n_0"][int(rng.integers(0, 6))] if rng.random() < 0.35 else None
+                prior_of[g] = pool.new(nm)
+            ents.append(("%d:%s" % (j, attr), ("P", prior_of[g])))
+    if rng.random() < 0.5:
+        ents = [ents[j] for j in rng.permutation(len(ents))]
+    return ("D", ents)
+
+
 def rand_groups(rng, pool):
     keys = ["n", "r", "center", "0:n", "1:n", "0:r", "t"]
-    sc = ("D", [(k, rand_spec(rng, pool, 2)) for k in list(rng.permutation(keys))[:int(rng.integers(1, 5))]])
+    if rng.random() < 0.4:
+        sc = rand_composite(rng, pool)
+    else:
+        sc = ("D", [(k, rand_spec(rng, pool, 2)) for k in list(rng.permutation(keys))[:int(rng.integers(1, 5))]])
     th = ("D", [("lens_angle", ("P", pool.pick()))] if rng.random() < 0.4 else [])
     op = ("D", [("medium_index", ("F", 1)), ("illum_wavelen", rand_spec(rng, pool, 1) if rng.random() < 0.3 else ("Z",)),
                 ("illum_polarization", ("Z",)), ("noise_sd", ("P", pool.pick()) if rng.random() < 0.3 else ("F", 2))])
@@ -320,9 +348,13 @@ def search(ctx):
             elif kind == 1:
                 sc = Sphere(n=[shared, pr(1.3, 1.5)], r=[pr(0.2, 0.4), pr(0.5, 0.7)], center=[pr(0, 2), 1.0, pr(5, 10)])
             else:
-                m = int(rng.integers(2, 5))
-                rshared = pr(0.2, 0.4, name_r)
-                sc = Spheres([Sphere(n=shared if rng.random() < 0.7 else 1.5, r=rshared if rng.random() < 0.6 else pr(0.2, 0.4, name_r),
+                m = int(rng.integers(2, 6))
+                # up to two groups of members sharing one prior object, per attribute (so a bare shared name can already be taken)
+                nsh = [shared, Uniform(1.3, 1.7, guess=float(rng.uniform(1.4, 1.6)))]
+                rsh = [pr(0.2, 0.4, name_r), pr(0.2, 0.4, [None, "r"][rng.integers(0, 2)])]
+                two = rng.random() < 0.6
+                sc = Spheres([Sphere(n=(nsh[int(rng.integers(0, 2)) if two else 0]) if rng.random() < 0.8 else 1.5,
+                                     r=(rsh[int(rng.integers(0, 2)) if two else 0]) if rng.random() < 0.7 else pr(0.2, 0.4, name_r),
                                      center=[pr(2 * j, 2 * j + 1), 0.0, pr(5, 10)]) for j in range(m)], warn=False)
             alpha = pr(0.5, 1.0, [None, "alpha", "a"][rng.integers(0, 3)])
             theory = MieLens(lens_angle=pr(0.5, 1.0)) if (kind == 0 and rng.random() < 0.4) else Mie()
